@@ -378,9 +378,10 @@ func (sql *SqliteDb) ImportMostRecentSnapshot(targetVersion int64, traverseOrder
 		return nil, 0, err
 	}
 
+	// the table names sort lexicographically (snapshot_4 > snapshot_11): compare the versions numerically
 	var (
 		name    string
-		version int64
+		version int64 = -1
 	)
 	for {
 		ok, err := q.Step()
@@ -388,7 +389,7 @@ func (sql *SqliteDb) ImportMostRecentSnapshot(targetVersion int64, traverseOrder
 			return nil, 0, err
 		}
 		if !ok {
-			return nil, 0, fmt.Errorf("no prior snapshot found version=%d path=%s", targetVersion, sql.opts.Path)
+			break
 		}
 		err = q.Scan(&name)
 		if err != nil {
@@ -398,13 +399,16 @@ func (sql *SqliteDb) ImportMostRecentSnapshot(targetVersion int64, traverseOrder
 		if vs == "" {
 			return nil, 0, fmt.Errorf("unexpected snapshot table name %s", name)
 		}
-		version, err = strconv.ParseInt(vs, 10, 64)
+		v, err := strconv.ParseInt(vs, 10, 64)
 		if err != nil {
 			return nil, 0, err
 		}
-		if version <= targetVersion {
-			break
+		if v <= targetVersion && v > version {
+			version = v
 		}
+	}
+	if version < 0 {
+		return nil, 0, fmt.Errorf("no prior snapshot found version=%d path=%s", targetVersion, sql.opts.Path)
 	}
 
 	root, err := sql.ImportSnapshotFromTable(version, traverseOrder, loadLeaves)
